@@ -5,8 +5,10 @@ OUT=$1; shift
 JOBS=${JOBS:-2}
 GOVC=${GOVC:-/verif/bin/govc}
 : > $OUT
+# entries: /verif/seeded/<id> directories or /verif/selftest/mutants/<prop>/<name>.diff files
 one() {
-  D=$1; d=$D/patch.diff; PROP=$(basename $D | cut -d- -f1)
+  D=$1
+  if [ -f "$D" ]; then d=$D; PROP=$(basename $(dirname $D)); else d=$D/patch.diff; PROP=$(basename $D | cut -d- -f1); fi
   W=$(mktemp -d /tmp/govc_mut.XXXXXX)
   (cd /repo && git ls-files -z | xargs -0 cp --parents -t "$W") 2>/dev/null
   if ! (cd "$W" && git init -q . >/dev/null 2>&1; git -C "$W" apply "$d" 2>/dev/null); then echo "SKIP(no-apply) $d" >> $OUT; rm -rf "$W"; return; fi
